@@ -929,6 +929,11 @@ def check(program, rep):
     rep.guard("C20-R3", r3_returned_structs, program, rep)
     rep.guard("C20-R3", r3_callers_files, program, rep)
     rep.guard("C20-R4", r4_packet, program, folder, rep)
+    # arguments handed to package functions under the wrong name / same-
+    # named optional parameters not passed on (NAMELINK, DESIGN.md 9.13)
+    from .. import namelink as _nl
+    rep.guard("C20-R5", _nl.rule, program, rep, "C20-R5",
+              [m for m in sorted(program.modules) if m.startswith("rig.machine_control")])
     return finish(rep, program, EXPLANATION, NOT_DECIDED,
                   trusted=["effects.py transfer functions",
                            "floor-division axioms in dataflow.axioms"])
